@@ -369,7 +369,7 @@ func storageWriters(w *World, r *Report, rule string) {
 	for _, fn := range w.RepoFuncs("accountant") {
 		for _, c := range callsTo(fn, cn("accountant", "*AccountingBook", "saveVertexToStorage")) {
 			n++
-			inCb := walkCb != nil && (fn == walkCb || (walkCb.Parent() == nil && len(cbCalls(walkCb, func(x ssa.CallInstruction) bool { return x == c })) > 0))
+			inCb := walkCb != nil && (fn == walkCb || (walkCb.Parent() == nil && len(cbCalls(walkCb, func(x ssa.CallInstruction) bool { return x == c })) > 0) || ownedBy(w, walkCb)[fn])
 			r.check(inCb && onlyCallback, rule, shortFn(fn)+"/saveVertexToStorage", lineOf(w, c), "vertices are written to checkpoint storage only by the truncation walk callback", "called from "+shortFn(fn))
 		}
 	}
